@@ -114,8 +114,9 @@ class Disconnection:
       ref = ref.line
     if isinstance(ref, gfapy.Line):
       # a line listed more than once (e.g. a path which visits the segment
-      # several times) has already been disconnected
-      if ref.is_connected():
+      # several times) has already been disconnected; groups which refer
+      # to each other may be in the course of being disconnected
+      if ref.is_connected() and not ref.__dict__.get("_disconnecting"):
         ref.disconnect()
     elif isinstance(ref, list):
       for i in range(len(ref)):
